@@ -338,3 +338,16 @@ func TestC10Mixed(t *testing.T) {
 		t.Repeat(m.actions(maxSize))
 	})
 }
+
+// FuzzC10Mixed: the mixed-buffer state machine under the native coverage-guided fuzzer (thorough tier).
+func FuzzC10Mixed(f *testing.F) {
+	f.Fuzz(rapid.MakeFuzz(func(t *rapid.T) {
+		max := rapid.SampledFrom(staticLimits).Draw(t, "maxStaticBytes")
+		m := &mixed{max: max, gen: vio.Gen{Key: uint64(max) + 5}}
+		m.mb = new(elastic.Buffer)
+		m.mb.Reset(max)
+		m.logf("zero value; Reset(%d)", max)
+		defer m.mb.Release()
+		t.Repeat(m.actions(3000))
+	}))
+}
